@@ -24,6 +24,7 @@ func preamble(timeoutMs int) string {
 	sb.WriteString("(set-option :produce-models true)\n")
 	sb.WriteString(fmt.Sprintf("(set-option :timeout %d)\n", timeoutMs))
 	sb.WriteString(preludeDatatypes)
+	sb.WriteString(calendarPreamble)
 	for _, d := range TE.decls {
 		sb.WriteString(d + "\n")
 	}
@@ -300,7 +301,11 @@ func portfolioScript(j *Job, o *Obligation, script string, cfg SolverCfg) {
 			if strings.HasPrefix(s.name, "cvc5") {
 				args = append(append([]string{}, args...), fmt.Sprintf("--tlimit=%d", cfg.TimeoutMs))
 			}
-			out, _ := runSolver(ctx, s.bin, args, script)
+			sc := script
+			if strings.HasPrefix(s.name, "cvc5") {
+				sc = "(set-logic ALL)\n" + script
+			}
+			out, _ := runSolver(ctx, s.bin, args, sc)
 			ch <- res{s.name, out, time.Since(t0).Seconds()}
 		}(s)
 	}
